@@ -17,7 +17,9 @@ EXTENDS Integers, Sequences, FiniteSets, FiniteSetsExt, TLC, Json
 CONSTANTS Obj,        \* object identifiers
           Zero,       \* the encoding of time 0.0 (initial bounds)
           EmitEdges,  \* TRUE: print one JSON line per transition (spec -> code replay)
-          Mutant      \* "none", or the name of a deliberately wrong variant (self-test of the invariants)
+          Mutant,     \* "none", or the name of a deliberately wrong variant (self-test of the invariants)
+          CarryAll    \* TRUE: copies / merges carry every category they may carry (what the library does); used for
+                      \* long simulated behaviours that are replayed step by step.  FALSE: any acceptable subset.
 
 VARIABLES heap,       \* Obj -> continuum value or NoObj
           out         \* outcome of the last call: "ok" or the exception class
@@ -75,6 +77,8 @@ ResetVal(c) ==
 
 Eq(c, d) == c.ann = d.ann /\ c.units = d.units
 
+CatChoices(S) == IF CarryAll THEN {S} ELSE SUBSET S
+
 Emit(op, args) ==
     EmitEdges => PrintT(ToJson([src |-> heap, op |-> op, args |-> args, dst |-> heap', out |-> out']))
 
@@ -120,7 +124,7 @@ Remove(o, a, s, e, l) ==
 (* in use and invent nothing                                                              *)
 Copy(o, o2) ==
     /\ o \in Live /\ heap[o2] = NoObj
-    /\ \E extra \in SUBSET (heap[o].cats \ LabelsInUse(heap[o])) :
+    /\ \E extra \in CatChoices(heap[o].cats \ LabelsInUse(heap[o])) :
           heap' = [heap EXCEPT ![o2] = [heap[o] EXCEPT !.cats = IF Mutant = "copy_drops_cats" THEN {}
                                                                  ELSE LabelsInUse(heap[o]) \cup extra]]
     /\ out' = "ok"
@@ -132,9 +136,11 @@ CopyFlush(o, o2) ==
     /\ out' = "ok"
     /\ Emit("copy_flush", <<o, o2>>)
 
+\* merging adds the labels of d's UNITS; whether unused categories of d come along is not fixed by the property:
+\* the library does not carry them (CarryAll: exactly the library's behaviour)
 MergeResults(c, d) ==
     LET low == MergeLower(c, d)
-    IN {[low EXCEPT !.cats = @ \cup extra] : extra \in SUBSET (d.cats \ low.cats)}
+    IN IF CarryAll THEN {low} ELSE {[low EXCEPT !.cats = @ \cup extra] : extra \in SUBSET (d.cats \ low.cats)}
 
 MergeInPlace(o, o2) ==
     /\ o \in Live /\ o2 \in Live
@@ -145,7 +151,7 @@ MergeInPlace(o, o2) ==
 (* out-of-place merge and `+`: a copy of o merged with o2, stored as o3; o and o2 untouched *)
 MergeNew(op, o, o2, o3) ==
     /\ o \in Live /\ o2 \in Live /\ heap[o3] = NoObj
-    /\ \E extra \in SUBSET (heap[o].cats \ LabelsInUse(heap[o])) :
+    /\ \E extra \in CatChoices(heap[o].cats \ LabelsInUse(heap[o])) :
        \E v \in MergeResults([heap[o] EXCEPT !.cats = LabelsInUse(heap[o]) \cup extra], heap[o2]) :
           heap' = [heap EXCEPT ![o3] = v]
     /\ out' = "ok"
